@@ -57,3 +57,9 @@ func (c *Calcium) VerifCountTasks() *atomic.Int64 {
 	c.pool = pool
 	return busy
 }
+
+// VerifPoolInvoke hands a task to the task pool exactly as calcium's own code does (non-blocking:
+// a saturated pool refuses it), so that a harness can occupy workers the way concurrent requests do.
+func (c *Calcium) VerifPoolInvoke(f func()) error {
+	return c.pool.Invoke(f)
+}
